@@ -99,11 +99,11 @@ CHECKS = {
    cat="proof",
    text="13 Lean theorems: half sweeps of '1site', '2site' and '12site' (under ANY enlarge_bond oracle) are overlap chains with backward updates exactly on the intersections, "
         "palindromic; all reads fresh; exit state; exact characterisation of steps/ds over Q; fourth-order identities for every s and bounds for the literal s2 REGENERATED from "
-        "_tdvp.py by a translator (|4 s^3+(1-4s)^3| < 1e-19); ncv memory keys disjoint. Tie: event traces of real tdvp_ runs vs the model, time grids vs an exact Fraction "
+        "_tdvp.py by a translator (|4 s^3+(1-4s)^3| < 1e-19); ncv memory keys disjoint; C10Unitary (Mathlib): for EVERY self-adjoint generator on a complex Hilbert space and every real t the exact propagator exp(-itH) is unitary, preserves the norm (propagator_norm) and the energy <Hx,x> (propagator_energy) of every state. Tie: event traces of real tdvp_ runs vs the model, time grids vs an exact Fraction "
         "reference, oracles vs scipy expm at maximal bond dimension (real/imaginary/complex u, 2nd/4th order), norm/energy conservation, sector, reported times.",
-   note=TB + "Norm/energy conservation and full-manifold exactness (Lubich-Oseledets) are observed by oracles, not proved. Interpretive decisions (canonical input, 'maximal' bond "
+   note=TB + "Norm/energy conservation is proved for the exact propagator (and each exact local exponential) only; that tdvp_ reproduces it (projector splitting, Krylov expmv) and full-manifold exactness (Lubich-Oseledets) are observed by oracles, not proved. Interpretive decisions (canonical input, 'maximal' bond "
         "dimension for 1site in unbalanced sectors) are in the evidence notes and DESIGN §7.",
-   technique="Lean 4 proof of sweep/time logic + translator for literals + trace correspondence + expm oracle", design="§5 C10"),
+   technique="Lean 4 proof of sweep/time logic and of unitarity/conservation of the exact propagator + translator for literals + trace correspondence + expm oracle", design="§5 C10"),
  "C11": dict(
    cat="proof",
    text="42 Lean theorems (Mathlib matrix exponential, R and C, ALL parameter values): exp of sums of orthogonal idempotents; the closed forms of the occupation, field, Ising, "
